@@ -80,6 +80,7 @@ func main() {
 	runAztecShapes()
 	runEncoderHistories()
 	runDecoderHistories()
+	runLargeCountHistories()
 	runDecoderFailureHistories()
 	runSpecialParity()
 	runSyndromeKernelErrors()
